@@ -55,6 +55,8 @@ def verify_contract(repo: str, con: Any, contracts_by_target: dict[str, Any], mo
     }
     world = World(repo, model_paths)
     ctx = Ctx(timeout_ms)
+    budget = con.__dict__.get("budget_s", 150 if timeout_ms <= 10000 else 900)
+    ctx.deadline = time.time() + budget
     ctx.name_prefix = f"{con.target}{'' if mode == 'main' else '{' + mode + '}'}"
     try:
         file, qual = con.target.split("::")
@@ -78,6 +80,7 @@ def verify_contract(repo: str, con: Any, contracts_by_target: dict[str, Any], mo
         requires = con.__dict__.get("requires")
         ensures = con.__dict__.get("ensures")
         raises: dict[str, Any] = con.__dict__.get("raises") or {}
+        may_raise: dict[str, Any] = con.__dict__.get("may_raise") or {}
         known: dict[str, Any] = con.__dict__.get("known") or {}
         open_ids = [k for k in known if open_findings is None or k in open_findings]
         def_line = node.lineno
@@ -108,11 +111,22 @@ def verify_contract(repo: str, con: Any, contracts_by_target: dict[str, Any], mo
             if outcome[0] == "raise":
                 etype = outcome[1]
                 matched = [name for name in raises if interp.exc_is(etype, name)]
+                may = [name for name in may_raise if interp.exc_is(etype, name)]
                 if matched:
                     cond = interp.truth(interp.eval_named(raises[matched[0]], args))
                     ctx.prove(cond, "raises-only-if", outcome[2], etype)
+                elif may:
+                    cond = interp.truth(interp.eval_named(may_raise[may[0]], args))
+                    ctx.prove(cond, "raises-only-if", outcome[2], etype)
                 else:
                     ctx.prove(False, "no-exception", outcome[2], f"{etype}:{outcome[3]}")
+                on_raise = con.__dict__.get("on_raise") or {}
+                values = dict(args)
+                values["old"] = old
+                values["effects"] = _effects_value(interp)
+                for label, fn in on_raise.items():
+                    post = interp.truth(interp.eval_named(fn, values))
+                    ctx.prove(post, "exceptional-post", outcome[2], f"{label}:{etype}")
                 outcomes[f"raise {etype}"] = outcomes.get(f"raise {etype}", 0) + 1
             else:
                 for etype, cond_fn in raises.items():
